@@ -94,6 +94,8 @@ class Instance:
         self.fs.create_database_on_connect = False
         self.conns.append(self.fs.connect(database="db2"))
         self.fs.create_database_on_connect = True
+        # a second session without any database: each session has its OWN engine context, also when it started with none
+        self.conns.append(self.fs.connect())
         self.admin = self.fs.duck_conn.cursor()
 
     def ctx(self, c):
@@ -131,7 +133,7 @@ def dec_cat(x):
 
 def in_dom(inst, c, op):
     """Python mirror of CtxProofs.dom, evaluated on the implementation's actual contexts."""
-    ctxs = [inst.ctx(k) for k in range(4)]
+    ctxs = [inst.ctx(k) for k in range(len(inst.conns))]
     cdb, csch, dset, sset, edb, esch = ctxs[c]
     if op[0] == "usedb":
         return not csch and not sset
@@ -150,7 +152,7 @@ def run_history(rng, hist, texts=None, gen=0):
     inst = Instance()
     try:
         cat0 = inst.catalog()
-        world0 = [enc_cat(cat0), [inst.ctx(c) for c in range(4)]]
+        world0 = [enc_cat(cat0), [inst.ctx(c) for c in range(len(inst.conns))]]
         out, sqls = [], []
         i = -1
         while True:
@@ -159,7 +161,7 @@ def run_history(rng, hist, texts=None, gen=0):
                 if i >= gen:
                     break
                 for _ in range(50):
-                    c, op = rng.choice((0, 1, 2, 2, 3)), gen_op(rng, inst.catalog())
+                    c, op = rng.choice((0, 1, 2, 2, 3, 4, 4)), gen_op(rng, inst.catalog())
                     if in_dom(inst, c, op):
                         break
                 else:
@@ -369,6 +371,10 @@ def main():
     hists.insert(2, [(2, ("reconnect", "DB3", "S9")), (2, ("createtable", ["T"])), (3, ("reconnect", "DB1", "S2")), (0, ("dropschema", "DB3", "S9")), (2, ("reconnect", "DB1", "S1")),
                      (3, ("reconnect", "DB3", "S9")), (3, ("current",)), (3, ("createtable", ["T"])), (3, ("select", ["T"], 0)), (2, ("select", ["DB3", "S9", "T"], 0)),
                      (1, ("dropschema", "DB3", "S9")), (1, ("reconnect", "DB3", "S9")), (1, ("current",)), (1, ("createtable", ["U"])), (3, ("select", ["DB3", "S9", "U"], 0))])
+    # corpus: two sessions that started without a database go to different places
+    hists.insert(3, [(2, ("usedb", "DB1")), (2, ("useschema", None, "S1")), (0, ("createdb", "DB2")), (0, ("createschema", "DB2", "S2")), (4, ("usedb", "DB2")), (4, ("useschema", None, "S2")),
+                     (2, ("current",)), (4, ("current",)), (2, ("createtable", ["TA"])), (4, ("createtable", ["TB"])), (2, ("select", ["TA"], 0)), (4, ("select", ["TB"], 0)),
+                     (0, ("select", ["DB1", "S1", "TA"], 0)), (0, ("select", ["DB2", "S2", "TB"], 0)), (2, ("current",))])
     cases, impl = [], []
     reported = False
     for hi, h in enumerate(hists):
@@ -412,7 +418,7 @@ def main():
     check_known(ck)
     ck.cov["distinct_nontrivial"] = len({core.show(c[2]) for c in cases})
     ck.cov["samples"].append({"history": [(c, s) for (c, _), s in zip(hists[1], impl[1][1])][:10], "results": [o[0] for o in impl[1][0]][:10]})
-    return ck.finish(rule="random multi-connection histories with new sessions opened at any point (4 connection slots: DB1.S1, DB1.S2, one without database, one that named a database that did not exist; 3 databases x 3 schemas x 3 tables; "
+    return ck.finish(rule="random multi-connection histories with new sessions opened at any point (5 connection slots: DB1.S1, DB1.S2, two without database, one that named a database that did not exist; 3 databases x 3 schemas x 3 tables; "
                           "names rendered with random case/quoting; seven statement forms per table reference) kept inside the theorem's domain by a generator-side mirror of `dom`; "
                           "after EVERY statement the result, the reported context, the engine's current schema and the full catalog are compared; distinct by encoded history")
 
